@@ -1,8 +1,124 @@
 package main
 
-import "fmt"
+import (
+	"encoding/json"
+	"fmt"
+	"os"
+	"path/filepath"
+	"sync"
+	"time"
+)
 
+// selftest: determinism of the machinery itself. For every property and several seeds the
+// same worker batch is executed in many OS processes - plain and -race builds, GOMAXPROCS
+// 1 / 4 / 16 - and the digests (fold of every run's case fingerprint, step count, full
+// (task, site) trace hash and verdict) must all be equal.
+//
+//	harness selftest [seeds] [procs-per-config] [runs]
 func selftest(args []string) int {
-	fmt.Println("selftest: not implemented yet")
+	seeds, procs, runs := 6, 5, 120
+	if len(args) > 1 {
+		fmt.Sscan(args[1], &seeds)
+	}
+	if len(args) > 2 {
+		fmt.Sscan(args[2], &procs)
+	}
+	if len(args) > 3 {
+		fmt.Sscan(args[3], &runs)
+	}
+	e := getenv()
+	if e.work == "" {
+		d, _ := os.MkdirTemp("", "selftest")
+		defer os.RemoveAll(d)
+		e.work = d
+	}
+	type cfg struct {
+		bin   string
+		race  bool
+		procs string
+	}
+	var cfgs []cfg
+	for _, gp := range []string{"1", "4", "16"} {
+		cfgs = append(cfgs, cfg{e.plain, false, gp})
+		if e.race != "" {
+			cfgs = append(cfgs, cfg{e.race, true, gp})
+		}
+	}
+	t0 := time.Now()
+	total, bad := 0, 0
+	report := map[string]interface{}{}
+	for _, id := range propIDs() {
+		p := props[id]
+		for _, pl := range p.Plans("quick") {
+			if pl.Race { // the same plan is run on both builds below
+				continue
+			}
+			for s := 1; s <= seeds; s++ {
+				digests := map[uint64]int{}
+				var mu sync.Mutex
+				var wg sync.WaitGroup
+				sem := make(chan struct{}, e.nproc)
+				n := 0
+				for ci, c := range cfgs {
+					for k := 0; k < procs; k++ {
+						n++
+						wg.Add(1)
+						go func(ci int, c cfg, k int) {
+							defer wg.Done()
+							sem <- struct{}{}
+							defer func() { <-sem }()
+							dir := filepath.Join(e.work, fmt.Sprintf("st-%s-%s-%d-%d-%d", id, pl.Name, s, ci, k))
+							os.MkdirAll(dir, 0755)
+							envv := []string{"GOMAXPROCS=" + c.procs}
+							if c.race {
+								envv = append(envv, "GORACE=halt_on_error=1 exitcode=66")
+							}
+							args := []string{"work", id, "-seed", fmt.Sprint(1000 + s), "-worker", "0", "-runs", fmt.Sprint(runs), "-maxtime", "10m", "-out", dir, "-plan", pl.Name, "-variant", fmt.Sprint(pl.Variant), "-size", fmt.Sprint(pl.Size), "-maxviol", "1000000"}
+							r := runProc(10*time.Minute, envv, c.bin, args...)
+							var o WorkerOut
+							b, _ := os.ReadFile(filepath.Join(dir, fmt.Sprintf("worker-%s-0.json", pl.Name)))
+							d := uint64(0)
+							if r.code == 0 && json.Unmarshal(b, &o) == nil {
+								d = o.Digest ^ uint64(o.Runs)<<48
+							} else {
+								d = uint64(r.code) // a crash is a distinct digest
+							}
+							os.RemoveAll(dir)
+							mu.Lock()
+							digests[d]++
+							mu.Unlock()
+						}(ci, c, k)
+					}
+				}
+				wg.Wait()
+				total += n
+				key := fmt.Sprintf("%s/%s/seed%d", id, pl.Name, 1000+s)
+				if len(digests) != 1 {
+					bad++
+					report[key] = fmt.Sprintf("DIVERGED: %v", digests)
+					fmt.Printf("selftest: %s: %d processes produced %d different digests: %v\n", key, n, len(digests), digests)
+				} else {
+					for d := range digests {
+						report[key] = fmt.Sprintf("%d processes, digest %016x", n, d)
+					}
+				}
+			}
+		}
+	}
+	out := map[string]interface{}{
+		"what":              "same worker batch executed in many OS processes: plain and -race builds x GOMAXPROCS 1/4/16; digests must be identical",
+		"processes":         total,
+		"runs_per_process":  runs,
+		"seeds":             seeds,
+		"diverging_batches": bad,
+		"wall_s":            round2(time.Since(t0).Seconds()),
+		"batches":           report,
+	}
+	os.MkdirAll(filepath.Join(e.verif, "evidence", "selftest"), 0755)
+	writeJSON(filepath.Join(e.verif, "evidence", "selftest", "determinism.json"), out)
+	fmt.Printf("selftest: %d processes, %d diverging batches, %.1fs\n", total, bad, time.Since(t0).Seconds())
+	if bad > 0 {
+		return 1
+	}
 	return 0
 }
